@@ -77,6 +77,23 @@ def build(cx, fmt, rep, nrec, first, step, p):
             ia = p.get('index_aim', 1)
             recs.append((first + r * step, [sum(q[ia * tmax:(ia + 1) * tmax])], start, len(F)))
         return F, recs, 1
+    if fmt == 'edens':
+        # same ms.dat files as 'qtop'; _extract_flowed_energy_density returns, per flow time n, the mean over the timeslices [xmin, tmax - xmin) of the
+        # second (Yang-Mills action, 'Y') block - the first ('W') block with plaquette=True
+        nn, tmax, dn, eps = p.get('nn', 1), p.get('tmax', 2), 1, 0.01
+        xmin = p.get('xmin', 0)
+        F = [I(dn), I(nn), I(tmax), D(eps)]
+        for r in range(nrec):
+            start = len(F)
+            F.append(I(first + r * step))
+            keep = None
+            for blk in ('W', 'Y', 'Q'):
+                vals = [sym('%s%d_%d' % (blk, r, k)) for k in range(tmax * (nn + 1))]
+                F += [D(v) for v in vals]
+                if blk == ('W' if p.get('plaquette') else 'Y'):
+                    keep = vals
+            recs.append((first + r * step, [sum(keep[n * tmax + xmin:(n + 1) * tmax - xmin]) / (tmax - 2 * xmin) for n in range(nn + 1)], start, len(F)))
+        return F, recs, nn + 1
     if fmt == 'sfqcd':
         ncs, tmax, zeu = p.get('ncs', 2), p.get('tmax', 2), p.get('zeuthen', False)
         F = [I(2), I(ncs), I(tmax), I(8), I(8), I(8), D(1e-6), D(0.4)]
@@ -163,6 +180,12 @@ def call_reader(cx, fmt, path, prefix, p, kw):
             ia = p.get('index_aim', 1)
             c = float(np.sqrt(8 * 0.01 * ia))
             return [Q.read_qtop(path, prefix, c=c, L=1, version='openQCD', **kw)]
+        if fmt == 'edens':
+            ed = Q._extract_flowed_energy_density(path, prefix, 1, p.get('xmin', 0), 1, **dict(kw, **({'plaquette': True} if p.get('plaquette') else {})))
+            nn = p.get('nn', 1)
+            keys = sorted(ed)
+            cx.expect(len(keys) == nn + 1 and all(abs(k - n * 0.01) < 1e-12 for n, k in enumerate(keys)), 'flow times n * dn * eps as keys', str(keys))
+            return [ed[k] for k in keys]
         if fmt == 'sfqcd':
             ia, ncs = p.get('index_aim', 1), p.get('ncs', 2)
             return [Q.read_qtop(path, prefix, c=ia * 0.4 / ncs, version='sfqcd', Zeuthen_flow=p.get('zeuthen', False), **kw)]
@@ -171,7 +194,7 @@ def call_reader(cx, fmt, path, prefix, p, kw):
 
 
 def fname(fmt, prefix, rep):
-    return {'rwms14': '%s%s.dat', 'rwms16': '%s%s.ms1.dat', 'rwms20': '%s%s.ms1.dat', 'qtop': '%s%s.ms.dat', 'sfqcd': '%s%s.gfms.dat', 'ms5': '%s%s.ms5_xsf_dd.dat'}[fmt] % (prefix, rep)
+    return {'rwms14': '%s%s.dat', 'rwms16': '%s%s.ms1.dat', 'rwms20': '%s%s.ms1.dat', 'qtop': '%s%s.ms.dat', 'edens': '%s%s.ms.dat', 'sfqcd': '%s%s.gfms.dat', 'ms5': '%s%s.ms5_xsf_dd.dat'}[fmt] % (prefix, rep)
 
 
 def result_specs(fmt, p, per_rep, nobs):
